@@ -55,5 +55,13 @@ CHECKS = {
     text='Purity sanitizer (deep argument snapshots before/after, second run on read-only ndarray copies), determinism replayer (equal inputs and integer seeds -> bit-identical; different seeds differ; second run with the same model objects), value agreement across argument forms (ndarray / read-only / list / tuple / Fortran-ordered / DataFrame, single vs stacked) and schema predicates, directed at a registry of call specifications covering every public callable enumerated at run time from the module docstrings (a callable without a specification makes the run inconclusive) and ambient on every public callable during filter schedules, integrator histories, simulation chains (and the repository test-suite in the thorough tier).',
     ref='2/C19', technique='purity sanitizer + determinism replayer over a registry of all public callables, directed and ambient',
     note='Documented exception: transform/bias of EstimationModel objects handed to a filter; Turntable.generate_imu excluded (fails at baseline).'),
+ 'C01': dict(
+    text='Reference-model postcondition on the real compute_increments_from_imu -> Integrator.integrate pipeline fed with the exact IMU signal of analytic truth motions (hand-derived rigid-body kinematics on the rotating ellipsoid, self-checked against finite differences at start-up), at interval h and h/2 (h/4 thorough): per channel err(h) <= 4 max|y(h)-y(h/2)| + floor and err(h/2) <= 0.75 err(h) above the floor, floor = N eps scale cosh(T sqrt(2g/R)).',
+    ref='2/C01', technique='runtime postcondition vs analytic truth motion on an interval-halving ladder',
+    note='A limit is restated as a bounded ladder; horizons 5..120 s in quick, up to a Schuler period in thorough; longitudes compared modulo 360.'),
+ 'C03': dict(
+    text='Postcondition on the real generate_imu (three input forms x two sensor types) against analytic truth motions: interior readings vs exact body rate / specific force or their exact interval integrals, returned trajectory vs truth, strapdown re-integration vs returned trajectory - each through the halving ladder; order of the gyro interval integration (ratio <= 0.125); bodies at rest vs the closed form; generate_sine_velocity_motion vs its documented closed form and an own integration on the ellipsoid.',
+    ref='2/C03', technique='runtime postcondition vs analytic truth motion on an interval-halving ladder',
+    note='Accelerometer floor 100 eps R / h^2 (spline second derivative of a 6.4e6 m vector); samples within 12 knots of the ends checked by shrink test only; Turntable excluded.'),
 }
 PENDING = {}
